@@ -137,7 +137,7 @@ theorem transform_default_log (d : Document) : (transformDocument noHooks d).2 =
 /-- Keep iff every item is kept; otherwise item `i` of the result is the replacement of item `i`
     if there is one and a copy of item `i` otherwise (so: same length, same order); the item
     function is called once per item, in list order. -/
-theorem transformList_spec' {α : Type} (f : α → W (Tr α)) (l : List α) :
+theorem transformList_items {α : Type} (f : α → W (Tr α)) (l : List α) :
     transformList f l =
       (if l.all (fun x => (f x).1.shouldKeep) then .keep else .replace (l.map fun x => (f x).1.getD x),
        l.flatMap fun x => (f x).2) := by
